@@ -13,54 +13,40 @@ def _sqo(t):
 
 def ob_tree_offsets(ctx, res):
     co = ctx.ast.fn(W, "calculate_offsets")
-    # facts, independent of how the dispatch on the node kind is spelled (match / if let):
-    #   every `index_offsets[level - 1] += X` : X is NODEHEADER_SIZE once per node (outside the child loop) or NON_LEAFNODE_SIZE once per child (inside it);
-    #   the recursion descends into each child's children at level - 1; nothing is added for data sections
-    adds = [n for n in walk_no_nested_fn(co.body) if n.k == "binary" and n["op"] == "+=" and strip(n["l"]).k == "index"]
-    recs = [c for c in walk_no_nested_fn(co.body) if c.k == "call" and up(c["func"]) == "calculate_offsets"]
-    loops = [n for n in walk_no_nested_fn(co.body) if n.k == "for"]
+    # calculate_offsets is evaluated on a small three-level tree: slot L-1 must hold, for every node on level L, its header plus one fixed-size item per child
+    from ..rules.interp import Interp, NotPure
 
-    def inside(n, anc):
-        x = n.parent
-        while x is not None and isinstance(x, Node):
-            if x is anc:
-                return True
-            x = x.parent
-        return False
-    okc = True
-    why = ""
-    hdr = [a_ for a_ in adds if up(strip(a_["r"])) == "NODEHEADER_SIZE"]
-    itm = [a_ for a_ in adds if up(strip(a_["r"])) == "NON_LEAFNODE_SIZE"]
-    if len(adds) != 2 or len(hdr) != 1 or len(itm) != 1 or len(recs) != 1 or len(loops) != 1:
-        okc, why = False, "expected exactly: one `+= NODEHEADER_SIZE` per node, one `+= NON_LEAFNODE_SIZE` per child in one loop over the children, one recursive call"
-    else:
-        idx = {_sqo(upn(co, strip(a_["l"])["index"])) for a_ in adds}      # `let below = level - 1; offsets[below]` reads as level-1
-        lv = [nm for nm, ty in co.params if ty == "usize"]
-        if len(lv) != 1 or idx != {"%s-1" % lv[0]}:
-            okc, why = False, "a node on level L is accounted in slot L - 1; slots used: %s" % sorted(idx)
-        elif inside(hdr[0], loops[0]) or not inside(itm[0], loops[0]) or not inside(recs[0], loops[0]):
-            okc, why = False, "the node header is counted once per node (outside the child loop), the item and the recursion once per child (inside it)"
-        else:
-            ra = [_sqo(upn(co, x)) for x in recs[0]["args"]]
-            child = up(loops[0]["pat"])
-            if ra[1] not in ("&%s.children" % child, "%s.children" % child) or ra[2] != "%s-1" % lv[0]:
-                okc, why = False, "the recursion must descend into each child's children one level down; got %s" % ra
-            else:
-                # the loop runs over the children of a `Nodes(..)` node only
-                it = up(strip(loops[0]["iter"]))
-                disp = None
-                x = loops[0].parent
-                while x is not None and isinstance(x, Node):
-                    if x.k == "arm" and "Nodes(" in up(x["pat"]):
-                        disp = up(x["pat"])
-                    if x.k == "if" and strip(x["cond"]).k == "let_expr" and "Nodes(" in up(strip(x["cond"])["pat"]):
-                        disp = up(strip(x["cond"])["pat"])
-                    x = x.parent
-                if disp is None or it not in disp:
-                    okc, why = False, "the child loop must run over the children bound by the `Nodes(..)` pattern (data sections add nothing)"
-    if not okc:
-        res.fail("treeOffsets/calc", co, "level sizes: %s" % why)
-        return
+    def node(children):
+        return {"__type": "RTreeNode", "children": children, "start_chrom_idx": 0, "start_base": 0, "end_chrom_idx": 0, "end_base": 0}
+    leaf = ("variant", "DataSections", [["s1", "s2", "s3"]])
+    mid1 = ("variant", "Nodes", [[node(leaf), node(leaf)]])
+    mid2 = ("variant", "Nodes", [[node(leaf)]])
+    root = ("variant", "Nodes", [[node(mid1), node(mid2), node(mid1)]])
+
+    def method(m, recv, args):
+        if isinstance(recv, list) and m in ("len", "count") and not args:
+            return len(recv)
+        if isinstance(recv, list) and m in ("iter", "into_iter") and not args:
+            return list(recv)
+        raise NotPure("method " + m)
+
+    def binop(op, a_, b_):
+        if isinstance(a_, int) and isinstance(b_, int) and op in ("+", "-", "*"):
+            return a_ + b_ if op == "+" else (a_ - b_ if op == "-" else a_ * b_)
+        raise NotPure("arithmetic")
+    offs = [0, 0]
+    try:
+        Interp(ctx.ast, W, extern={"None": None, "method": method, "binop": binop}).call(co, [offs, root, 2])
+    except NotPure as e:
+        res.undecided("treeOffsets/calc", co, "calculate_offsets is outside the fragment the rule evaluates (%s)" % e)
+        offs = None
+    if offs is not None:
+        NH, NL = 4, 24
+        want = [(NH + NL * 2) + (NH + NL * 1) + (NH + NL * 2), NH + NL * 3]
+        if offs != want:
+            res.fail("treeOffsets/calc", co, "level sizes: for a root with 3 children holding 2, 1 and 2 leaf nodes the per-level sizes must be %s (slot L-1 = sum over the nodes on level L of "
+                                             "NODEHEADER_SIZE + children * NON_LEAFNODE_SIZE; data sections add nothing); calculate_offsets gives %s" % (want, offs))
+            return
     res.ok(co, "level size = sum over nodes (NODEHEADER_SIZE + children * NON_LEAFNODE_SIZE), recursively per level")
     wt = ctx.ast.fn(W, "write_tree")
     t = up(wt.body)
@@ -108,8 +94,33 @@ def ob_tree_offsets(ctx, res):
     if not re.search(r"let mut index_offsets: Vec<u64> = vec!\[0u64; levels( as usize)?\]; calculate_offsets\(&mut index_offsets,&nodes,levels\);", t):
         res.fail("treeOffsets/level-sizes", wr, "level sizes must be computed for `levels` levels before anything is written")
         return
-    m = re.search(r"let mut (\w+) = file\.tell\(\)\?; for (\w+) in \(0\.\.=levels\)\.rev\(\) \{if \2 > 0 \{\1 \+= index_offsets\[\2 - 1\];?\} write_tree\(file,&nodes,levels,\2,\1,options\)\?;?\}", t)
-    if not m:
+    # levels are written from the root level down to 0; before level L > 0 the running offset grows by the size of level L-1 ... i.e. by slot L-1
+    lv = [n for n in walk_no_nested_fn(wr.body) if n.k == "for" and re.fullmatch(r"\(0\.\.=levels\)\.rev\(\)", up(strip(n["iter"])).replace(" ", ""))]
+    okl = None
+    if len(lv) == 1:
+        L = up(lv[0]["pat"])
+        wts = [c for c in walk_no_nested_fn(lv[0]["body"]) if c.k == "call" and up(c["func"]) == "write_tree"]
+        adds = [n for n in walk_no_nested_fn(lv[0]["body"]) if n.k == "binary" and n["op"] == "+=" and strip(n["r"]).k == "index" and up(strip(strip(n["r"])["base"])) == "index_offsets"]
+        if len(wts) == 1 and len(adds) == 1 and adds[0].order < wts[0].order:
+            X = up(strip(adds[0]["l"]))
+            ix = strip(strip(adds[0]["r"])["index"])
+            g = adds[0].parent
+            while g is not None and isinstance(g, Node) and g.k != "if":
+                g = g.parent
+            guard_ok = False
+            if g is not None and g is not lv[0]:
+                c = strip(g["cond"])
+                if c.k == "let_expr" and up(c["pat"]).startswith("Some(") and re.fullmatch(r"%s\.checked_sub\(1\)" % re.escape(L), up(strip(c["e"]))) and up(ix) == up(c["pat"])[5:-1]:
+                    guard_ok = True
+                elif c.k != "let_expr" and upn(wr, c) in ("0 < %s" % L, "1 <= %s" % L, "0 != %s" % L) and upn(wr, ix) == "%s - 1" % L:
+                    guard_ok = True
+            b0 = binding_before(wr, X, lv[0]) if re.fullmatch(r"\w+", X) else None
+            init_ok = b0 is not None and b0[0] == "let" and up(strip(b0[1]["init"])).replace("?", "").endswith(".tell()")
+            args = [up(strip(a_)) for a_ in wts[0]["args"]]
+            okl = guard_ok and init_ok and len(args) >= 5 and args[2] == "levels" and args[3] == L and args[4] == X
+    if okl is None:
+        res.undecided("treeOffsets/level-order", wr, "the loop writing the levels from the root down was not recognised")
+    elif not okl:
         res.fail("treeOffsets/level-order", wr, "levels must be written from the root level down to 0, each told where the next level starts (position after the header plus the sizes of the levels above)")
         return
     tl = [c for c in calls(wr.body, method="tell")]
